@@ -78,6 +78,13 @@ CHECKS["C16"] = dict(
     note="Bounded claim (depth K). Trusted: event-driven VHDL-subset semantics, reference machines (ToggleSignal / debounce follow the upstream ghdl-validated mocks), z3. Not covered: Duration (float) arguments / Duration.count_periods rounding, ClockDivider.",
     technique="bounded model checking (z3) of interpreted emitted VHDL against reference machines",
 )
+CHECKS["C14"] = dict(
+    category="model_checking",
+    text="Wrapper entities around std.Fifo[Unsigned[2],N] (N in {3,4} quick / {2..5} thorough; producer and consumer in two contexts or one) and std.Stack[Unsigned[2],N] (default / NO_OVERFLOW / DROP_OLD) are unrolled K = 3N+4 clocks from power-up with a symbolic request (push(v), pop, both, clear, context reset, none) and symbolic data at every clock under the documented preconditions; z3 proves popped values, order, front, empty/full/size equal a ghost bounded sequence at every clock, and that the emitted 'writing to full fifo' / 'reading from empty fifo' assertions are unreachable.",
+    design_ref="DESIGN.md 3/C14, 2.6",
+    note="Bounded claim (depth K). Trusted: VHDL-subset semantics, ghost model, z3. Delayed (tx/rx delay) clock-domain-crossing configurations are not covered; reading Stack.front while empty is excluded (documented as undefined).",
+    technique="bounded model checking (z3) of interpreted emitted VHDL against a ghost sequence model",
+)
 NA = {}
 manifest = {
     "version": 1,
